@@ -141,10 +141,37 @@ def main():
             and d.hugr[cn].op.port_kind(cn.out(0)) == T.ConstKind(v.type_()) and list(d.hugr.linked_ports(cn.out(0))) == [ld.inp(0)]
         if not ok:
             fail("load(): LoadConstant typed by the constant, wired from its static port", repr(v)[:100])
+    # several loads into ONE container (and under a requested const_parent): every load gets a constant holding exactly the
+    # value it was given - look-alike values (field-less sums agreeing on tag and number of variants but not on the type,
+    # equal values loaded twice) are the ones a sharing / caching shortcut would confuse
+    three = T.Sum([[], [B], [T.Qubit]])
+    alike = [V.FALSE, V.None_(B), V.Right([T.Qubit], []), V.Left([], [B]), V.TRUE, V.UnitSum(0, 3), V.Sum(0, three, []), V.Unit, V.Tuple(),
+             V.None_(T.Qubit), V.UnitSum(1, 3), V.Sum(1, T.Sum([[B], [], []]), [])]
+    for i, v1 in enumerate(alike):
+        for v2 in alike:
+            for under_root in (False, True):
+                ev += 1
+                d = Dfg()
+                inner = d.add_nested()
+                host = inner if under_root else d
+                cp = d.parent_node if under_root else None
+                bad = None
+                for v in (v1, v2, v1):
+                    ld = host.load(v, const_parent=cp) if under_root else host.load(v)
+                    cn = next(iter(d.hugr.linked_ports(ld.inp(0)))).node
+                    cop, lop = d.hugr[cn].op, d.hugr[ld].op
+                    if not (isinstance(cop, O.Const) and cop.val == v and cop.val.type_() == v.type_() and isinstance(lop, O.LoadConst) and lop.type_ == v.type_()
+                            and cop.port_kind(cn.out(0)) == T.ConstKind(v.type_()) and d.hugr.port_type(ld.out(0)) == v.type_()
+                            and d.hugr[cn].parent == (cp if under_root else host.parent_node) and d.hugr[ld].parent == host.parent_node):
+                        bad = v
+                        break
+                if bad is not None:
+                    fail("load(): several loads into one container - each LoadConstant is fed by a constant holding the value given, under the requested parent",
+                         f"{v1!r}, {v2!r}, {v1!r} (under_root={under_root}): wrong for {bad!r}")
     emit({
         "name": "bounded.c14",
         "kind": "small-scope value expressions against an independent inhabitation oracle (differential check) + DfBase.load (bounded stand-in)",
-        "bound": f"{len(atoms)} atoms, all unary/binary helpers over them, a third level over a sample: {len(pool)} values; widths 0..6; arrays of length 0, 1, 3",
+        "bound": f"{len(atoms)} atoms, all unary/binary helpers over them, a third level over a sample: {len(pool)} values; widths 0..6; arrays of length 0, 1, 3; load sequences v1, v2, v1 over 12 look-alike values, in the container and under a requested parent",
         "exhaustive": False,
         "evaluations": ev,
         "distinct_nontrivial": len(pool) - len(atoms) + len(checks),
